@@ -132,10 +132,12 @@ def run(P, R, tier):
     R.rule("C19.eos", "pressure evaluations are the Peng-Robinson equation and the cubic solved for V is the same equation", minimum=8)
     R.rule("C19.phi", "fugacity coefficient, compressibility, A, B, B_r, partial pressure and SI correction are the defining expressions", minimum=14)
     for f in fs:
-        one_overload(P, R, f, "PR%d:" % len(f["pnames"]))
+        one_overload(P, R, f, "PR%d:" % (4 if f["pnames"] else 0))   # tags name the two overloads: gas-phase unknowns (0) / explicit phase list (4)
     kij_rule(P, R)
     cache_rule(P, R)
     quick_rule(P, R)
+    prtemp_rule(P, R)
+    vmowner_rule(P, R)
 
 
 def quick_rule(P, R):
@@ -168,7 +170,7 @@ def cache_rule(P, R):
     fs = [g for g in P.fns_named("Phreeqc::calc_PR") if g.get("body")]
     n = 0
     for f in fs:
-        tag = "PR%d" % len(f["pnames"])
+        tag = "PR%d" % (4 if f["pnames"] else 0)
         # map every assignment of pr_alpha to its innermost enclosing If
         def visit(node, guards):
             nonlocal n
@@ -483,3 +485,96 @@ def one_overload(P, R, f, tag):
         R.ok("C19.phi", tag + "clamp", "ln phi clamped to [ln 0.01, ln 85]")
     else:
         R.violation("C19.phi", tag + "clamp", "the clamp of ln phi is not [ln 0.01, ln 85] = [-4.6, 4.44] (literals %s)" % lits, line=clamp[0][1] if clamp else f["line"], **where)
+
+
+def prtemp_rule(P, R):
+    """"Each fugacity coefficient matches the equation of state at the reported temperature": calc_PR(phases, P, TK, V_m) evaluates the
+    Peng-Robinson equation at the temperature it is handed.  During a calculation that is the temperature of the calculation: the
+    engine member tk_x, or a local computed as <solution>.Get_tc() + 273.15 while the model is set up.  The GAS_PHASE block's own
+    -temperature (Get_temperature(), 25 C by default, never updated by SAVE) is the right argument only where the block is initialised
+    from its definition (tidy_gas_phase).  Every call site is classified."""
+    RULE = "C19.prtemp"
+    R.rule(RULE, "every calc_PR call evaluates the equation of state at the temperature of the calculation (tk_x / solution temperature); the block's -temperature only in tidy_gas_phase", minimum=5)
+    n = 0
+    for k, g in sorted(P.functions.items(), key=lambda kv: kv[1]["q"]):
+        for c in T.calls(g["body"]):
+            if T.callee_q(c) != "Phreeqc::calc_PR" or len(c[4]) < 4:
+                continue
+            n += 1
+            a = T.strip_casts(c[4][2])
+            inst = "%s@%d" % (g["q"].split("::")[-1], c[1])
+            where = dict(file=g["file"], line=c[1], function=g["q"])
+            if T.is_node(a) and a[0] == "Member" and a[2] == "Phreeqc::tk_x":
+                R.ok(RULE, inst, "TK = tk_x")
+            elif T.is_node(a) and a[0] == "Ref" and a[2] == "local":
+                asg = [w for t, how, line, w in T.writes(g["body"]) if how == "=" and T.is_node(T.strip_casts(t)) and T.strip_casts(t)[0] == "Ref" and T.strip_casts(t)[3] == a[3]]
+                good = asg and all(any(T.callee_name(y) == "Get_tc" for y in T.calls(w[4])) and any(
+                    yy[0] == "Lit" and str(yy[3]).startswith("273.15") for yy in T.walk(w[4])) for w in asg)
+                if good:
+                    R.ok(RULE, inst, "TK = %s = solution temperature + 273.15" % a[3])
+                else:
+                    R.violation(RULE, inst, "calc_PR is given the local `%s`, which is not (only) assigned <solution>.Get_tc() + 273.15" % a[3], **where)
+            elif T.is_node(a) and a[0] == "Call" and T.callee_name(a) == "Get_temperature":
+                if g["q"] == "Phreeqc::tidy_gas_phase":
+                    R.ok(RULE, inst, "definition time: the block's own -temperature")
+                else:
+                    R.violation(RULE, inst, "calc_PR is evaluated at the GAS_PHASE block's own -temperature (`%s`) inside a calculation: molar volume and fugacity coefficients belong to "
+                                "another temperature than the one the step is run and reported at" % T.text(a)[:60], **where)
+            else:
+                R.violation(RULE, inst, "calc_PR is given `%s` as temperature, which is neither tk_x nor a solution temperature" % T.text(a)[:60], **where)
+    if n < 5:
+        R.anchor_missing(RULE, "only %d calc_PR(phases, P, TK, V_m) call sites" % n)
+
+
+def vmowner_rule(P, R):
+    """"Reported P, V, T and moles obey the equation of state": calc_PR evaluates the Peng-Robinson equation for the phases it is handed and
+    can store the resulting molar volume (and, for fixed volume, pressure) in the GAS_PHASE in use.  It is called for the components of
+    that gas phase and, while a model is set up, for single gases of EQUILIBRIUM_PHASES.  (store) every store into the gas phase inside
+    calc_PR is guarded by the parameter that says the evaluation is for the gas phase; (callers) a caller that does not walk the
+    components of the gas phase (no Get_gas_comps in the function: the pure-phase set-up) passes that parameter as false.  Otherwise the
+    molar volume of an unrelated gas ends up in the gas phase, which then reports V = v_m * n of another substance."""
+    RULE = "C19.vmowner"
+    R.rule(RULE, "calc_PR stores v_m / total_p in the gas phase only when evaluated for it; the pure-phase callers say so", minimum=4)
+    fs = [g for g in P.fns_named("Phreeqc::calc_PR") if len(g.get("pnames", [])) >= 4]
+    if len(fs) != 1:
+        R.anchor_missing(RULE, "calc_PR(phases, P, TK, V_m, ...) not found")
+        return
+    f = fs[0]
+    flag = f["pnames"][4] if len(f["pnames"]) > 4 else None
+    stores = []
+
+    def rec(n, conds):
+        if not T.is_node(n):
+            return
+        if n[0] == "Call" and T.callee_q(n) in ("cxxGasPhase::Set_v_m", "cxxGasPhase::Set_total_p"):
+            stores.append((n, list(conds)))
+        if n[0] == "If":
+            rec(n[2], conds)
+            rec(n[3], conds + [n[2]])
+            rec(n[4], conds)
+            return
+        for ch in T.children(n):
+            rec(ch, conds)
+    rec(f["body"], [])
+    if not stores:
+        R.ok(RULE, "store", "calc_PR does not store into the gas phase")
+    for c, conds in stores:
+        inst = "store:%s@%d" % (T.callee_name(c), c[1])
+        guarded = flag is not None and any(any(y[0] == "Ref" and y[2] == "param" and y[3] == flag for y in T.walk(k)) for k in conds)
+        if guarded:
+            R.ok(RULE, inst, "guarded by `%s`" % flag)
+        else:
+            R.violation(RULE, inst, "calc_PR stores into the GAS_PHASE in use without knowing whether the phases it evaluated belong to it: a gas of EQUILIBRIUM_PHASES leaves its "
+                        "molar volume in an unrelated gas phase", file=f["file"], line=c[1], function=f["q"])
+    for k, g in sorted(P.functions.items(), key=lambda kv: kv[1]["q"]):
+        for c in T.calls(g["body"]):
+            if T.callee_q(c) != "Phreeqc::calc_PR" or len(c[4]) < 4:
+                continue
+            inst = "caller:%s@%d" % (g["q"].split("::")[-1], c[1])
+            walks = any(T.callee_name(y) == "Get_gas_comps" for y in T.calls(g["body"]))
+            last = T.strip_casts(c[4][4]) if len(c[4]) > 4 else None
+            says_false = last is not None and T.lit_value(last) == 0
+            if walks or says_false:
+                R.ok(RULE, inst, "walks the gas phase's components" if walks else "passes for_gas_phase = false")
+            else:
+                R.violation(RULE, inst, "%s evaluates calc_PR for phases that are not taken from the gas phase and lets it store the molar volume there" % g["q"], file=g["file"], line=c[1], function=g["q"])
